@@ -82,6 +82,8 @@ def run(ctx, rep):
     rep.guarded("R01-KINDS", lambda: r_kinds(sh, rep))
     rep.guarded("R01-CAST", lambda: cast_rules.rule_cast(sh, rep, "R01-CAST"))
     rep.guarded("R01-AIR", lambda: r_air(sh, rep))
+    rep.rule("R01-TYPEKEY", "decoder-cache keys (push_type_identity) start with a tag that is unique per type constructor", floor=4)
+    rep.guarded("R01-TYPEKEY", lambda: r_typekey(sh, rep))
 
 
 def binop_match(sh):
@@ -217,3 +219,35 @@ def r_air(sh, rep):
     rep.check(None not in heads, "R01-AIR", "no-catch-all", sh.loc(G, f), "gen_uplc has a catch-all arm over Air: an instruction would be compiled as another one or dropped")
     for v in air["variants"]:
         rep.check(v["name"] in heads, "R01-AIR", v["name"], sh.loc(G, f), "Air::%s has no explicit arm in gen_uplc" % v["name"], nontrivial=False)
+
+
+# ---------------------------------------------------------------------------------------------------------
+# R01-TYPEKEY: the key under which synthesised decoders are cached is injective over type constructors
+# ---------------------------------------------------------------------------------------------------------
+def r_typekey(sh, rep):
+    """`expect` decoders for a type are generated once and cached in code_gen_functions under a name built by
+    push_type_identity. Two type constructors that push the same tag share a cache entry: whichever decoder is generated
+    first is reused for the other (a Pair decoded as a 2-tuple uses unListData on a map). Each constructor arm must start
+    its key with its own literal tag, or delegate."""
+    f = find_fn(sh.file(G), "push_type_identity")
+    rep.touched(G, "push_type_identity")
+    ten = find_enum(sh.file("crates/aiken-lang/src/tipo.rs"), "Type")
+    variants = [v["name"] for v in ten["variants"]]
+    m = find_enum_match(f, "Type", set(variants))
+    if m is None:
+        raise AnchorMissing("match over Type in push_type_identity")
+    tags = {}
+    for v, arm, alt in arm_table(m):
+        if v is None:
+            rep.bad("R01-TYPEKEY", "push_type_identity#catch-all", sh.loc(G, arm), "catch-all arm: some type constructor gets no tag of its own")
+            continue
+        pushes = [c for c in calls_in(arm["body"], closures=False) if c["k"] == "MethodCall" and c["m"] == "push_str" and c["args"] and c["args"][0]["k"] == "Lit"]
+        if pushes:
+            tags[v] = pushes[0]["args"][0]["v"]
+        else:
+            rec = any(c["k"] == "Call" and call_name(c) == "push_type_identity" for c in calls_in(arm["body"]))
+            rep.check(rec, "R01-TYPEKEY", "push_type_identity#%s#delegates" % v, sh.loc(G, arm), "the %s arm neither pushes a tag nor delegates to the linked type" % v, nontrivial=False)
+    for v in variants:
+        if v in tags:
+            clash = sorted(w for w in tags if w != v and tags[w] == tags[v])
+            rep.check(not clash, "R01-TYPEKEY", "push_type_identity#%s#tag-unique" % v, sh.loc(G, f), "Type::%s and Type::%s both start their decoder-cache key with \"%s\": a program that casts Data to both reuses one synthesised decoder for the other type and aborts on valid input (or accepts a wrong shape)" % (v, "/".join(clash), tags[v]), sample={"tag": tags[v]})
